@@ -10,4 +10,22 @@ def bounds(tier):
 
 
 def cells(tier):
-    return make_cells(PID, 'atomic', tier)
+    out = make_cells(PID, 'atomic', tier)
+    # the same from a state reached through a roReplace (new roCreate element, deep-copied children)
+    plain = lambda op, story_k, tk, sk, nk: story_k in (None, 'existing') and tk in (None, 'existing', 'unknown') and \
+        (sk is None or sk in (['existing'], ['existing', 'existing'], ['existing', 'unknown'])) and (nk is None or nk == ['fresh'])
+    out += make_cells(PID, 'atomic', tier, N=3, thin=plain, extra={'prehist': True}, suffix='after-roReplace')
+    # a roStorySend without storyBody (header-only send) may fail, but then nothing may have been touched
+    only = lambda op, story_k, tk, sk, nk: True
+    out += make_cells(PID, 'atomic', tier, N=3, ops=['roStorySend'], extra={'no_body': True}, suffix='no-storyBody')
+    # carried stories whose duration text cannot be parsed (blank <StoryDuration/>, "01:30"): whatever the merge
+    # does with them, if it raises the running order is as before
+    ins = lambda op, story_k, tk, sk, nk: tk in (None, 'existing') and nk in (['fresh', 'fresh'], ['fresh'])
+    for ct in ('blank', 'odd'):
+        out += make_cells(PID, 'atomic', tier, N=3, thin=ins, extra={'carried_timing': ct}, suffix='carried-duration-' + ct,
+                          ops=['roStoryInsert', 'roStoryReplace', 'roStoryAppend', 'EAStoryInsert', 'EAStoryReplace'])
+    # item-level cells without the trailing paragraph: the last item is the story's last child
+    it = lambda op, story_k, tk, sk, nk: story_k == 'existing' and (sk is None or len(sk) == 2)
+    out += make_cells(PID, 'atomic', tier, N=3, thin=it, extra={'tail': False}, suffix='no-tail',
+                      ops=['roItemMoveMultiple', 'EAItemMove', 'EAItemSwap', 'roItemDelete', 'EAItemDelete'])
+    return out
